@@ -165,18 +165,19 @@ Example c03_nonvacuous :
 Proof. vm_compute. split; reflexivity. Qed.
 
 (** The theorem applies to that run: its hypotheses hold. *)
-Example c03_theorem_applies c w' err :
-  entry up1 (fun _ => Some 0) xp1 wp1 (fun _ => MHasResp) prog1 (new_context qa1 false None, empty_world) = ((c, w'), err) ->
-  exists r, run1 empty_world qa1 false None = (w', Some r) /\ m_id r = 8 /\ m_question r = m_question qa1.
+Example c03_theorem_applies :
+  exists w' r, run1 empty_world qa1 false None = (w', Some r) /\ m_id r = 8 /\ m_question r = m_question qa1.
 Proof.
-  intro He.
+  pose (s := entry up1 (fun _ => Some 0) xp1 wp1 (fun _ => MHasResp) prog1 (new_context qa1 false None, empty_world)).
+  assert (Hrc : m_rcode (base_reply (fst (fst s)) (snd s)) = 0) by (vm_compute; reflexivity).
+  destruct s as [[c w'] err] eqn:He. cbn [fst snd] in Hrc.
+  assert (Hlt : m_rcode (base_reply c err) < 16) by (rewrite Hrc; reflexivity).
   destruct (reply_exactly_one_id_question up1 (fun _ => Some 0) xp1 wp1 (fun _ => MHasResp) (fun _ m => m)
               (fun _ => true) (fun _ => 0) prog1 empty_world qa1 false None (Judge.C15.Q Judge.C15.n0 1 1) c w' err
               up1_echo (fun size m => trunc_rel_refl m) (fun _ _ _ => eq_refl) eq_refl eq_refl
-              (conj eq_refl eq_refl) store_ok_empty He (or_introl _) (N.le_0_l _))
+              (conj eq_refl eq_refl) store_ok_empty He (or_introl Hlt) (N.le_0_l _))
     as (r & H1 & _ & H3 & H4 & _).
-  - revert He. vm_compute. intro He. inversion He. reflexivity.
-  - exists r. auto.
+  exists w', r. auto.
 Qed.
 
 (** Truncation: a reply the contract allows, with TC set because a record was dropped. *)
